@@ -279,6 +279,15 @@ func registerLevelDB(e *Engine) {
 		}
 		return IfaceV{}
 	})
+	open := func(in *Interp, _ *frame, fn *ssa.Function, args []Value, pos tokenPos) Value {
+		et := fn.Signature.Results().At(0).Type().(*types.Pointer).Elem()
+		o := in.newObj(OpaqueV{Tag: "ldb", Data: &ldbModel{}}, et, "leveldb.DB")
+		o.heap = true
+		return TupleV{E: []Value{PtrV{obj: o}, IfaceV{}}}
+	}
+	reg(ldb+".OpenFile", open)
+	reg(ldb+".RecoverFile", open)
+	reg(ldb+".Open", open)
 	batchOf := func(in *Interp, v Value, pos tokenPos) *ldbBatch {
 		p := v.(PtrV)
 		if p.IsNil() {
